@@ -18,7 +18,7 @@ VERIF = os.path.dirname(os.path.dirname(os.path.abspath(__file__)))
 DRIVER = os.path.join(VERIF, 'driver', 'instantiate.cpp')
 CACHE = os.path.join(VERIF, '.cache')
 MPI_INC = '/usr/lib/x86_64-linux-gnu/openmpi/include'
-CACHE_VERSION = 14
+CACHE_VERSION = 15
 
 
 class AnalysisBroken(Exception):
@@ -44,6 +44,53 @@ def tree_hash(repo, extra=''):
     h.update(extra.encode())
     h.update(str(CACHE_VERSION).encode())
     return h.hexdigest()[:24]
+
+
+def field_kind(t):
+    t = (t or '').replace('const ', '').strip(' &*')
+    if t.startswith('std::vector<') and t.endswith('>'):
+        return 'V<%s>' % field_kind(t[len('std::vector<'):-1])
+    if t in ('unsigned long', 'std::size_t', 'size_t', 'unsigned int', 'unsigned long long'):
+        return 'N'
+    if t in ('double', 'float', 'long double'):
+        return 'T'
+    if 'basic_string' in t or t == 'std::string':
+        return 'S'
+    return 'O'
+
+
+# data members as named in the tree the rules were written against: (name, kind of type), in
+# declaration order
+CANON_FIELDS = {
+    'hep::integrand': [('function_', 'O'), ('parameters_', 'V<O>'), ('dimensions_', 'N')],
+    'hep::accumulator': [('parameters_', 'V<O>'), ('indices_', 'V<N>'), ('sums_', 'V<T>'), ('compensations_', 'V<T>'),
+                         ('non_zero_calls_', 'V<N>'), ('finite_calls_', 'V<N>')],
+    'hep::mc_result': [('calls_', 'N'), ('non_zero_calls_', 'N'), ('finite_calls_', 'N'), ('sum_', 'T'),
+                       ('sum_of_squares_', 'T')],
+    'hep::plain_result': [('distributions_', 'V<O>')],
+    'hep::vegas_result': [('pdf_', 'O'), ('adjustment_data_', 'V<T>')],
+    'hep::multi_channel_result': [('adjustment_data_', 'V<T>'), ('channel_weights_', 'V<T>')],
+    'hep::distribution_parameters': [('bins_x_', 'N'), ('bins_y_', 'N'), ('x_min_', 'T'), ('y_min_', 'T'),
+                                     ('bin_size_x_', 'T'), ('bin_size_y_', 'T'), ('name_', 'S')],
+    'hep::distribution_result': [('parameters_', 'O'), ('results_', 'V<O>')],
+    'hep::vegas_pdf': [('x', 'V<T>'), ('bins_', 'N'), ('dimensions_', 'N')],
+    'hep::mc_point': [('weight_', 'T'), ('point_', 'V<T>')],
+    'hep::vegas_point': [('bin_', 'V<N>')],
+    'hep::multi_channel_point': [('channel_', 'N'), ('coordinates_', 'V<T>')],
+    'hep::multi_channel_point2': [('densities_', 'V<T>'), ('channel_weights_', 'V<T>'), ('enabled_channels_', 'V<N>'),
+                                  ('map_', 'O')],
+    'hep::projector': [('accumulator_', 'O'), ('point_', 'O')],
+    'hep::chkpt': [('results_', 'V<O>')],
+    'hep::vegas_chkpt': [('alpha_', 'T'), ('bins_', 'N'), ('pdf_', 'V<O>')],
+    'hep::multi_channel_chkpt': [('beta_', 'T'), ('min_weight_', 'T'), ('first_channel_weights_', 'V<T>')],
+    'hep::chkpt_with_rng': [('generators_', 'V<O>')],
+    'hep::callback': [('mode_', 'O'), ('filename_', 'S'), ('target_rel_err_', 'T')],
+    'hep::mpi_callback': [('callback_', 'O')],
+    'hep::multi_channel_weight_info': [('channels_', 'V<N>'), ('weights_', 'V<T>'), ('calls_', 'V<N>'),
+                                       ('minimal_weight_count_', 'N')],
+    'hep::discrete_distribution': [('weight_sums', 'V<T>')],
+    'hep::multi_channel_integrand': [('map_', 'O'), ('map_dimensions_', 'N'), ('channels_', 'N')],
+}
 
 
 def build_flags(repo):
@@ -366,6 +413,7 @@ class Builder:
             self.top(o)
         self.fix_template_template_args()
         self.propagate_virtual()
+        self.canonical_fields()
         # pass 2: lower bodies (needs hep id set for callee classification)
         low = ir.Lowerer(self.p)
         for f in list(self.p.funcs.values()):
@@ -376,6 +424,45 @@ class Builder:
             f.raw = None
         self.p.unknown_kinds = low.unknown
         self.p.goto_sites = low.goto_sites
+
+    def canonical_fields(self):
+        """The rules name data members by the names they have in the tree the rules were written
+        against.  A private member that was merely renamed (same position / same kind of type) is
+        mapped back to that name, so that a rename alone neither hides a member from a rule nor
+        raises an alarm; every alias is recorded in prog.field_alias and listed in the evidence."""
+        self.p.field_alias = {}
+        self.p.field_alias_notes = []
+        for r in self.p.records.values():
+            base = strip_targs(r.qualname or '')
+            canon = CANON_FIELDS.get(base)
+            if canon is None or not r.fields:
+                continue
+            have = [f['name'] for f in r.fields]
+            cn = [c[0] for c in canon]
+            if set(have) == set(cn):
+                continue
+            uf = [f for f in r.fields if f['name'] not in cn]
+            uc = [c for c in canon if c[0] not in have]
+            if len(uf) != len(uc) or len(r.fields) != len(canon):
+                continue
+            pairs = None
+            if all(field_kind(f['type']) == c[1] for f, c in zip(uf, uc)):
+                pairs = list(zip(uf, uc))
+            else:
+                kf = [field_kind(f['type']) for f in uf]
+                kc = [c[1] for c in uc]
+                if sorted(kf) == sorted(kc) and len(set(kf)) == len(kf):
+                    pairs = [(f, uc[kc.index(field_kind(f['type']))]) for f in uf]
+            if pairs is None:
+                continue
+            for f, c in pairs:
+                self.p.field_alias[f['id']] = c[0]
+                if not r.is_pattern:
+                    note = '%s::%s is treated as the member known as %s' % (base, f['name'], c[0])
+                    if note not in self.p.field_alias_notes:
+                        self.p.field_alias_notes.append(note)
+                f['orig_name'] = f['name']
+                f['name'] = c[0]
 
     def propagate_virtual(self):
         """`override` without the `virtual` keyword: a method is virtual if a method of the same
